@@ -273,6 +273,51 @@ def several_views():
     return out
 
 
+def late_records():
+    """A task that outlives the scope it was started in records after that scope completed: the record lands in no scope (it
+    is refused and logged) - in particular not in an enclosing scope, whose value and merged view hold only its own records -
+    and nothing is raised."""
+    out = []
+    kept = {}
+
+    async def prog():
+        gate = asyncio.Event()
+
+        async def late():
+            await gate.wait()
+            try:
+                ctx.record(M1(v=500), merge=m_sum)
+                ctx.record(M2(items=(9,)), merge=m_sum)
+            except Exception as e:  # noqa
+                out.append(f"ctx.record after the scope completed raised {e!r}")
+        async with ctx.scope("outer", completion=lambda m: kept.setdefault("outer", m)):
+            ctx.record(M1(v=1), merge=m_sum)
+            with ctx.scope("inner", completion=lambda m: kept.setdefault("inner", m)):
+                ctx.record(M2(items=(1,)), merge=m_sum)
+                t = ctx.spawn(late)
+            await asyncio.sleep(0)
+            gate.set()
+            await t
+            ctx.record(M1(v=2), merge=m_sum)
+        for _ in range(3):
+            await asyncio.sleep(0)
+    asyncio.run(prog())
+    o, i = kept.get("outer"), kept.get("inner")
+    if o is None or i is None:
+        return out + ["a scope never completed"]
+    view = {type(x): x for x in o.metrics(merge=lambda a, b: b if a is MISSING_ else m_sum(a, b))}
+    if o.read(M1) != M1(v=3) or o.read(M2) is not None:
+        out.append(f"records made after the inner scope completed landed in the enclosing scope: outer holds M1={o.read(M1)!r}, M2={o.read(M2)!r}")
+    if i.read(M2) != M2(items=(1,)) or i.read(M1) is not None:
+        out.append(f"the completed inner scope changed: M1={i.read(M1)!r}, M2={i.read(M2)!r}")
+    if view.get(M1) != M1(v=3) or view.get(M2) != M2(items=(1,)):
+        out.append(f"the merged view of the outer scope is {view}")
+    return out
+
+
+from haiway import MISSING as MISSING_  # noqa: E402
+
+
 def not_missing_(v):
     from haiway import MISSING
     return v is not MISSING
@@ -295,7 +340,7 @@ def main():
         p = pc[0] if pc else None
     if not p:
         n += 1
-        pv = several_views()
+        pv = several_views() or late_records()
         p = pv[0] if pv else None
     if p:
         print(json.dumps(dict(reproduced=True, detail=dict(problem=p, seed=seed, program=n), cases_tried=n), default=str))
